@@ -711,7 +711,7 @@ Proof. intros H F i Hi. apply F. lia. Qed.
 
 Lemma tail_kw_present T txt lo Q g gm kw P ptext loP hiP (C : N -> bool) :
   tail_ok T txt lo Q ->
-  (g < gm)%nat -> (gm < loP)%nat -> (loP <= hiP)%nat -> (hiP < lo)%nat -> (lo <= 200)%nat ->
+  (g < gm)%nat -> (gm < lo)%nat -> (gm < loP \/ hiP < loP)%nat -> (hiP < lo)%nat -> (lo <= 200)%nat ->
   starts_not is_sp (kw ++ [32]) -> starts_not is_sp ptext -> ptext <> [] ->
   (forall junk p c k', krej C k' -> eats P ptext (txt ++ junk) p c k' loP hiP) ->
   (forall x s p c, C x = true -> BT T (x :: s) p c kf = BNo) ->
